@@ -139,7 +139,7 @@ def build_bundle(rec):
     if len(q) < 3:
         q = np.eye(ndim, dtype=np.int32)
     arr(".qvec", q, "qvector")
-    arr(".ngrids", rng.integers(2, 5, size=ndim).astype(int), "ngrids")
+    arr(".ngrids", np.full(ndim, int(rng.integers(2, 5)), dtype=int), "ngrids")
     arr(".grp", xu[0][: min(N, 9)].copy(), "group")
     n_ser = int(rng.choice([9, 10, 11]))
     tt = np.arange(n_ser) * 0.01
@@ -177,7 +177,7 @@ def conds(w, sname, shapes, dtypes, maxdepth=3):
     for n, e in w.pool.items():
         if e.kind == "arr" and e.tag.get("role") == "condition" and e.tag.get("shape") in shapes \
                 and e.tag.get("dtype") in dtypes and e.depth <= maxdepth \
-                and (n.startswith(b + ".") or e.tag.get("snaps") == b):
+                and len(e.value) >= 1 and (n.startswith(b + ".") or e.tag.get("snaps") == b):
             out.append(n)
     return sorted(out)
 
@@ -364,7 +364,7 @@ def compare_file(tag, path, expected, fmt):
         dec = fmt.split(":")[1]
         decimals = None if dec == "repr" else (0 if dec == "d" else int(dec))
         if kind == "csv":
-            got = pd.read_csv(path)
+            got = pd.read_csv(path, float_precision="round_trip")
             if not isinstance(expected, pd.DataFrame):
                 raise Violation(sig, "returned value is not a DataFrame")
             if [str(c) for c in got.columns] != [str(c) for c in expected.columns]:
